@@ -4,3 +4,4 @@ P=$1; shift
 git -C /repo apply "$(realpath "$P")" || { echo "patch does not apply"; exit 2; }
 for c in "$@"; do ./check $c quick 2>&1 | grep -v "^note:" | cut -c1-400; done
 git -C /repo checkout -- . ; git -C /repo status --short | head -3
+/verif/bin/extract >/dev/null 2>&1
